@@ -44,6 +44,7 @@ const (
 	compOpAll  = "_all"
 	compOpNone = "_none"
 	opNot      = "_not"
+	opOr       = "_or"
 	// it's just there for composite indexes. We construct a slice of value matchers with
 	// every matcher being responsible for a corresponding field in the index to match.
 	// For some fields there might not be any criteria to match. For examples if you have
@@ -815,6 +816,9 @@ func (f *indexFetcher) determineFieldFilterConditions() ([]fieldFilterCond, erro
 			// case index will do more harm. For example if we have _not: {_eq: 5} and the index
 			// fetches value 5, it will skip all documents with value 5, but we need to return them.
 			opNot,
+			// a condition inside an _or branch is not a condition on every matching document: the other
+			// branches may be satisfied by documents the index would never yield.
+			opOr,
 		)
 
 		// if after traversing the filter for the first field we didn't find any condition that can
